@@ -249,12 +249,18 @@ def evaluate_kani(kb, sel, res, rep, pid, log, root):
         rep.functions.add(u.target)
         if r is None or r.status in ("timeout", "error", "missing"):
             st = r.status if r else "missing"
+            if u.twin_of is not None and u.finding.get("exact"):
+                rep.extra.setdefault("region_exact", {})[f"{u.twin_of}/{u.finding['clause']}"] = None
             if u.twin_of is None:
                 rep.undecided.append(f"{n}: verifier {st} ({u.target})")
                 for c in u.clauses + ["total"]:
                     rep.add(n, c, "kani", backend, "undecided", r.time_s if r else 0, u.target, u.klass)
             continue
         failed = [kani_engine.clause_of(fc) for fc in r.failed_checks]
+        if u.twin_of is not None and u.finding.get("exact"):
+            # region-exactness twin: REGION ==> clause violated.  ok = the listed region is exact (tight)
+            rep.extra.setdefault("region_exact", {})[f"{u.twin_of}/{u.finding['clause']}"] = (r.status == "ok")
+            continue
         if u.twin_of is not None:
             f = u.finding
             if r.status == "failed" and f["clause"] in failed:
